@@ -26,14 +26,14 @@ func (c Class) String() string {
 }
 
 type Pred struct {
-	Selected  map[string]bool
-	Class     map[string]Class
-	Reason    map[string]string
-	WillFail  map[string]bool // would fail if executed
-	ExpectFail bool           // some must-exec target fails => exit != 0
-	ExitKnown bool
-	States    map[string]*spec.TState
-	Order     []string
+	Selected   map[string]bool
+	Class      map[string]Class
+	Reason     map[string]string
+	WillFail   map[string]bool // would fail if executed
+	ExpectFail bool            // some must-exec target fails => exit != 0
+	ExitKnown  bool
+	States     map[string]*spec.TState
+	Order      []string
 }
 
 // SelectionFor computes the set of targets a `grog build <patterns>` run from the workspace
@@ -118,8 +118,8 @@ func (e *Env) Predict(sel map[string]bool, cfg BuildCfg) (*Pred, error) {
 	order, _ := e.Spec.Order()
 	p := &Pred{Selected: sel, Class: map[string]Class{}, Reason: map[string]string{}, WillFail: map[string]bool{},
 		States: states, Order: order, ExitKnown: true}
-	failed := map[string]bool{}  // certainly failed or skipped
-	unsure := map[string]bool{}  // outcome not fixed by the model
+	failed := map[string]bool{} // certainly failed or skipped
+	unsure := map[string]bool{} // outcome not fixed by the model
 	for _, l := range order {
 		if !sel[l] {
 			continue
